@@ -60,14 +60,14 @@ def run_worker(mode, spec, wall):
     return res
 
 
-def partitions(ob, tier):
+def partitions(ob, tier, ranges=None):
     part = ob.partition
     if isinstance(part, dict):
         part = part.get(tier)
     if not part:
         return [None]
     pname, n = part
-    lo, hi = ob.params[pname]
+    lo, hi = (ranges or {}).get(pname) or ob.params[pname]
     size   = hi - lo + 1
     n      = min(n, size)
     out    = []
@@ -199,14 +199,16 @@ def main():
     jobs = []
     for ob in obls:
         for shape in (ob.shapes[tier] if tier in ob.shapes else [{}]):
+            shape  = dict(shape)
+            ranges = shape.pop('_ranges', None)
             base = {'module': ob.module, 'name': ob.name, 'shape': shape,
-                    'gen_dir': gen_dir,
+                    'gen_dir': gen_dir, 'ranges': ranges,
                     'path_timeout': ob.path_timeout,
                     'excl': excl.get((ob.module, ob.name), [])}
             for tw in ob.twins:
                 spec = dict(base, twin=tw, timeout=min(ob.timeout[tier], 90))
                 jobs.append(('twin', ob, spec))
-            for part in partitions(ob, tier):
+            for part in partitions(ob, tier, ranges):
                 spec = dict(base, twin=None, part=part,
                             timeout=ob.timeout[tier])
                 jobs.append(('main', ob, spec))
